@@ -23,6 +23,10 @@ class Prop:
                    '(options enforce [1;3600]); aligned host times/mem/cpu: no sample has fewer CPU entries than '
                    'the first one of its identifier (F24 otherwise)',
                    'period_gate is stated on the rounded float difference now - ref_now, as the code computes it']
+    KNOWN = ['known:F24-cpu-count-shrinks (statshost): a sample with fewer CPU entries than the first one of its '
+             'identifier raises IndexError and leaves times one point longer',
+             'known:F25b-proc-cpu-over-100 (statsfloat): cpu_process_statistics (called by no class) keeps the '
+             'shape 100.0 * x / y and returns 100 + ulp when process work == host work']
     TRUSTED = ['modelled (not verified): the arithmetic of CPython floats is PrimFloat (IEEE-754 binary64, '
                'round-to-nearest-even); int->float conversion is the model function z2f, tied by the statsfloat '
                'suite; ZeroDivisionError and OverflowError are both the crash kind OtherError',
